@@ -504,6 +504,9 @@ class Engine:
             rec['stats'] = {k: self.stats[k] - self._stats0.get(k, 0) for k in self.stats}
             with open(os.path.join(self._dir, "%d.pkl" % os.getpid()), "wb") as f:
                 pickle.dump(rec, f)
+            if rec.get('violations'):
+                # a counterexample is in hand: no further alternatives of this case are forked (see _fork_alternatives)
+                open(os.path.join(self._dir, "STOP"), "w").close()
         except BaseException:
             if os.getpid() != self._root:
                 os._exit(3)
@@ -525,6 +528,10 @@ class Engine:
     def _fork_alternatives(self, alts):
         """fork mode: children take alts[:-1] (sequentially), this process continues with alts[-1]"""
         import os
+        if os.path.exists(os.path.join(self._dir, "STOP")):
+            # another path of this case already produced a counterexample: the case is reported as violated, the rest of
+            # its path tree (possibly blown up by the defect itself) is not explored
+            raise Abort()
         for a in alts[:-1]:
             n_existing = len(os.listdir(self._dir))
             if n_existing > self.max_paths:
